@@ -271,11 +271,8 @@ func numberShape(v cty.Value) string {
 	if e := f.MantExp(nil); e > 64 || e < -64 {
 		ps = append(ps, "large-exponent")
 	}
-	switch p := f.Prec(); {
-	case p > 512:
+	if f.Prec() > 512 {
 		ps = append(ps, "over-512-bits")
-	case p < 512 && !f.IsInt():
-		ps = append(ps, "under-512-bits")
 	}
 	return strings.Join(ps, "-")
 }
